@@ -18,6 +18,13 @@ Log2Of(x) == LET a == RAbs(x) IN
              ELSE 999
 DetLog2OK(det, logged) == LET k == Log2Of(det) IN k = 999 \/ (logged[2] >= 0 /\ REq(RDy(logged), RQ(k)))
 
+\* logged values ([n,k] exact or [n,16,1] approximate, |value| < 1024) brought to units of 2^-16
+To16(d) == IF d[2] <= 16 THEN d[1] * (2 ^ (16 - d[2])) ELSE d[1] \div (2 ^ (d[2] - 16))
+NearVals(a, b) == a[2] >= 0 /\ b[2] >= 0 /\ LET x == To16(a) - To16(b) IN (IF x < 0 THEN -x ELSE x) <= 16
+\* badly scaled input: the matrix times 2^+-400 factorizes as well, and its log-determinant moves by exactly n*400*ln 2
+\* (the harness subtracts that), although the determinant itself is then outside the floating-point range for n >= 3
+ScaledOK(e) == \A i \in 1..Len(e.scaled) : e.scaled[i].rc = 0 /\ NearVals(e.scaled[i].l2, e.lnd)
+
 PluOK(e) ==
   LET n == e.n  A == Rs(e.A)  L == Rs(e.L)  U == Rs(e.U)  inv == Rs(e.inv)  b == Rs(e.b)  x == Rs(e.x)  det == RDy(e.det)  dA == DetR(A, n) IN
   /\ Exact(e.L) /\ Exact(e.U) /\ Exact(e.x) /\ Exact(e.inv) /\ Exact(e.inv2) /\ Exact(e.P) /\ Exact(e.PT) /\ e.det[2] >= 0
@@ -48,11 +55,11 @@ LltOK(e) ==
 
 Accept(e) ==
   /\ Exact(e.A)
-  /\ CASE e.kind = 1 -> e.rc = 0 /\ PluOK(e)
+  /\ CASE e.kind = 1 -> e.rc = 0 /\ PluOK(e) /\ ScaledOK(e)
        [] e.kind = 2 -> e.rc # 0                     \* an exactly vanishing pivot is reported as failure
-       [] e.kind = 3 -> e.rc = 0 /\ LdlOK(e)
+       [] e.kind = 3 -> e.rc = 0 /\ LdlOK(e) /\ ScaledOK(e)
        [] e.kind = 4 -> e.rc # 0
-       [] e.kind = 5 -> e.rc = 0 /\ LltOK(e)
+       [] e.kind = 5 -> e.rc = 0 /\ LltOK(e) /\ ScaledOK(e)
        [] e.kind = 6 -> e.rc # 0                     \* a non-positive Cholesky pivot is reported as failure
        [] OTHER -> FALSE
 
